@@ -21,6 +21,9 @@ func binderRules(c *core.Ctx, r *core.Report, rule string) {
 		if get == nil || set == nil || setCfg == nil {
 			continue // delegating implementation (embedded Binder)
 		}
+		if forwardsToHeld(get) && forwardsToHeld(set) && forwardsToHeld(setCfg) {
+			continue // delegating implementation (a held Binder with explicit forwarding methods)
+		}
 		n++
 		cons := "binder-table@" + T.Obj().Name()
 		// a constructor: a function of the same package returning *T
